@@ -246,6 +246,10 @@ def main(argv=None):
     if rc == 0 and nontriv < 2:
         print("inconclusive: fewer than two non-trivial cases", file=sys.stderr)
         return 2
+    if rc == 0 and agg['aborted'] > 0.5 * max(1, agg['evaluations']):
+        print(f"inconclusive: {agg['aborted']} of {agg['evaluations']} runs aborted (raised or exceeded the step budget) - "
+              "this property could not be judged on them; see C05", file=sys.stderr)
+        return 2
     return rc
 
 
